@@ -821,6 +821,10 @@ def run(ctx):
     items = [('%s/%s' % p, p, '%s-%d' % (p[0], ctx.seed)) for p in sample_pairs(ctx, ctx.n(34, 10 ** 6))]
     for i in range(ctx.n(70, 2500)):
         g = genbasis.gen_basis(ctx.rng, kinds=ctx.rng.choice([None, ['highl', 'plain'], ['ecponly', 'ecp', 'plain'], ['pople', 'general'], ['ecpgap', 'ecpsingle', 'ecp', 'plain']]))
+        if i % 10 == 7:
+            # the two elements whose symbols have three letters (Uue, Ubn), at the end so that the elements stay in increasing order
+            n_ = len(g['elements'])
+            g['elements'] = {('120' if k == n_ - 1 and n_ > 1 else '119' if k == max(n_ - 2, 0) else z): el for k, (z, el) in enumerate(g['elements'].items())}
         items.append(('gen%d' % i, g, 'g%d-%d' % (i, ctx.seed)))
     pairs = []
     nw = []
